@@ -43,6 +43,11 @@ type world struct {
 	cf       *CaseFile
 	d        *Daemon
 	tcp      int
+	tlsPort  int
+	caFile   string
+	crtFile  string
+	keyFile  string
+	connSeq  int
 	dir      string
 	disk     map[string]bool   // disk-only unit IDs created and (as far as known) not loaded yet
 	foreign  map[string]string // relative path -> base name
@@ -78,17 +83,32 @@ func (w *world) config() string {
     worktype: quiet
     command: sleep
     params: "300"
+- tls-server:
+    name: srv
+    cert: %s
+    key: %s
+- tls-client:
+    name: cli
+    cert: %s
+    key: %s
+    rootcas: %s
 - control-service:
     service: control
     filename: %s
     tcplisten: 127.0.0.1:%d
-`, self, w.d.DataDir(), w.d.Sock, w.tcp)
+- control-service:
+    service: control2
+    tls: srv
+    tcplisten: 127.0.0.1:%d
+    tcptls: srv
+`, self, w.d.DataDir(), w.crtFile, w.keyFile, w.crtFile, w.keyFile, w.caFile, w.d.Sock, w.tcp, w.tlsPort)
 }
 
 func setup(c *Ctx, im *Impl, cf *CaseFile) *world {
 	dir, err := os.MkdirTemp("", "vh-c08-")
 	Must(err)
-	w := &world{c: c, im: im, cf: cf, dir: dir, tcp: freePort(), disk: map[string]bool{}, foreign: map[string]string{}}
+	w := &world{c: c, im: im, cf: cf, dir: dir, tcp: freePort(), tlsPort: freePort(), disk: map[string]bool{}, foreign: map[string]string{}}
+	w.makeCerts()
 	w.d = &Daemon{Bin: c.Bin, ID: self, Dir: filepath.Join(dir, "n")}
 	w.d.Sock = filepath.Join(w.d.Dir, "ctl.sock")
 	w.d.Config = w.config()
@@ -530,11 +550,12 @@ func refLines(input []byte) ([][]byte, []byte) {
 // ---------- one session ----------
 
 type sessSpec struct {
-	conn  string // unix | tcp
-	input []byte // request bytes (without the sentinel)
-	eof   bool   // half-close after the input instead of sending the sentinel
-	lines []reqLine
-	label string
+	conn   string // unix | tcp
+	input  []byte // request bytes (without the sentinel)
+	eof    bool   // half-close after the input instead of sending the sentinel
+	lines  []reqLine
+	label  string
+	expect []int // corpus entries: the reply classes a correct node gives
 }
 
 func classify(l string) int {
@@ -559,11 +580,7 @@ func isSentinelReply(l string) bool {
 // runSession drives one session and returns the classes of the reply lines, the ID of a created
 // unit (or ""), and whether the session itself stayed responsive.
 func (w *world) runSession(sp sessSpec) (replies []int, newid string, ok bool, note string) {
-	addr, network := w.d.Sock, "unix"
-	if sp.conn == "tcp" {
-		addr, network = fmt.Sprintf("127.0.0.1:%d", w.tcp), "tcp"
-	}
-	s, err := dialNet(network, addr)
+	s, err := w.dialKind(sp.conn)
 	if err != nil {
 		return nil, "", false, "dial: " + err.Error()
 	}
@@ -630,6 +647,7 @@ func (w *world) doCase(sp sessSpec, withModel bool) {
 		return
 	}
 	sp = w.instantiate(sp)
+	sp.conn = w.spreadConn(sp.conn)
 	before, _, err := w.listUnits()
 	if err != nil {
 		// the housekeeping of the previous case (release of the units it left) hit a crash or wedge
@@ -664,6 +682,7 @@ func (w *world) doCase(sp sessSpec, withModel bool) {
 	}
 	after := w.afterInput(sp.label, rec)
 	w.im.Hist("session:" + sp.conn)
+	rec["connection"] = sp.conn
 	for _, l := range sp.lines {
 		w.im.Hist("line:" + l.kind)
 	}
@@ -683,6 +702,9 @@ func (w *world) doCase(sp sessSpec, withModel bool) {
 		if strings.Join(before, ",") != strings.Join(after, ",") {
 			w.im.Violate(fmt.Sprintf("a request that is not a valid command changed the unit list %v -> %v: %s", before, after, sp.label), "invalid-changed-state:"+category(sp.lines[0].kind), rec)
 		}
+	}
+	if sp.expect != nil && fmt.Sprint(sp.expect) != fmt.Sprint(replies) {
+		w.im.Violate(fmt.Sprintf("%s: reply classes %v, expected %v", sp.label, replies, sp.expect), "corpus-reply-differs", rec)
 	}
 	// bookkeeping of disk-only units that got loaded
 	w.mu.Lock()
@@ -1135,6 +1157,10 @@ func (w *world) abrupt(kind string) {
 	func() {
 		var s *Sess
 		var err error
+		if strings.HasPrefix(kind, "tls-") {
+			w.tlsAbuse(kind)
+			return
+		}
 		if kind == "before-greeting" {
 			c, err := net.DialTimeout(network, addr, 2*time.Second)
 			if err == nil {
@@ -1165,6 +1191,17 @@ func (w *world) abrupt(kind string) {
 			_ = s.send([]byte("connect " + self + " control\n"))
 			_, _ = s.line(2 * time.Second)
 			_ = s.send([]byte("work li"))
+		case "results-no-stdout":
+			// a unit without a stdout file: the results goroutine waits for it; the client leaves
+			id := w.makeRemotePending()
+			_ = s.send([]byte("work results " + id + " 0\n"))
+			_, _ = s.line(2 * time.Second)
+			time.Sleep(700 * time.Millisecond)
+		case "mesh-mid-line":
+			_ = s.send([]byte("connect " + self + " control\n"))
+			_, _ = s.line(2 * time.Second)
+			_, _ = s.line(2 * time.Second)
+			_ = s.send([]byte(`{"command":"work","subcommand":"li`))
 		case "reset":
 			if tc, ok := s.c.(*net.TCPConn); ok {
 				_ = tc.SetLinger(0)
@@ -1293,6 +1330,8 @@ type corpusEntry struct {
 	Conn    string `json:"connection"`
 	Input   string `json:"input"`
 	Invalid bool   `json:"surely_invalid"`
+	EOF     bool   `json:"half_close"`
+	Expect  []int  `json:"expect_reply_classes"`
 }
 
 func (w *world) runCorpus() {
@@ -1313,9 +1352,9 @@ func (w *world) runCorpus() {
 	if len(entries) == 0 {
 		// the three historical inputs, should the corpus directory be unavailable
 		entries = []corpusEntry{
-			{"status requested_fields of non-list type", "tcp", `{"command":"status","requested_fields":"NodeID"}` + "\n", true},
-			{"work status of a unit that exists only on disk", "tcp", "work status " + phDisk + "\n", false},
-			{"work status of a path outside the data directory", "tcp", "work status " + phFrgn + "\n", true},
+			{"status requested_fields of non-list type", "tcp", `{"command":"status","requested_fields":"NodeID"}` + "\n", true, false, nil},
+			{"work status of a unit that exists only on disk", "tcp", "work status " + phDisk + "\n", false, false, nil},
+			{"work status of a path outside the data directory", "tcp", "work status " + phFrgn + "\n", true, false, nil},
 		}
 	}
 	for _, e := range entries {
@@ -1324,7 +1363,7 @@ func (w *world) runCorpus() {
 			inv = 1
 		}
 		w.im.Hist("corpus-entries")
-		w.doCase(sessSpec{conn: e.Conn, input: []byte(e.Input), lines: []reqLine{{nil, inv, "corpus"}}, label: "corpus: " + e.Label}, true)
+		w.doCase(sessSpec{conn: e.Conn, input: []byte(e.Input), eof: e.EOF, expect: e.Expect, lines: []reqLine{{nil, inv, "corpus"}}, label: "corpus: " + e.Label}, true)
 	}
 }
 
@@ -1536,6 +1575,8 @@ func runC08(c *Ctx) {
 		w.doCase(sp, true)
 	}
 	w.startPositions()
+	w.reloadVariants()
+	w.payloadTrace()
 	nRand, nMixed, nAbrupt, nConc := 60, 40, 2, 2
 	sizes := []int{1 << 20}
 	if c.Thorough() {
@@ -1551,10 +1592,13 @@ func runC08(c *Ctx) {
 		w.doCase(w.mixedSession(), true)
 	}
 	for i := 0; i < nAbrupt; i++ {
-		for _, k := range []string{"before-greeting", "mid-line", "mid-long-line", "after-command-before-reply", "submit-stdin", "results-stream", "connect-bridge", "reset"} {
+		for _, k := range []string{"before-greeting", "mid-line", "mid-long-line", "after-command-before-reply", "submit-stdin", "results-stream", "connect-bridge", "reset",
+			"results-no-stdout", "tls-garbage", "tls-half-hello", "tls-silent", "mesh-mid-line"} {
 			w.abrupt(k)
 		}
 	}
+	streamsDone := make(chan struct{})
+	go func() { defer close(streamsDone); w.streamsVsRelease() }()
 	for _, size := range sizes {
 		kinds := []string{"ping-target", "garbage", "json-broken"}
 		if c.Thorough() {
@@ -1564,6 +1608,8 @@ func runC08(c *Ctx) {
 			w.overlong(k, size)
 		}
 	}
+	<-streamsDone
+	w.afterInput("results streams whose unit is released under them", map[string]interface{}{"what": "results stream vs release"})
 	for i := 0; i < nConc; i++ {
 		w.concurrent(8, 12)
 		w.concurrentReload(8, 25)
